@@ -8,6 +8,7 @@ import (
 	"os"
 	"path/filepath"
 	"runtime/debug"
+	"runtime/pprof"
 	"sort"
 	"strconv"
 	"strings"
@@ -130,6 +131,7 @@ type RunSpec struct {
 	MapOrder bool     `json:"map_order,omitempty"`
 	Reach    []string `json:"reach,omitempty"`
 	Bounds   string   `json:"bounds,omitempty"`
+	Raw      bool     `json:"raw,omitempty"`
 }
 
 type RunResult struct {
@@ -281,10 +283,15 @@ func runHarness(p *Program, spec RunSpec, solverKind string, workers int, seed i
 // runPath executes one path (decision prefix) of the harness.
 func (in *Interp) runPath(fn *ssa.Function, spec RunSpec, item *WorkItem) (reason string) {
 	in.tc = NewTermCtx()
+	in.tc.Raw = spec.Raw
 	in.prefix = item.dec
 	in.pos = 0
 	in.dec = in.dec[:0]
 	in.pc = nil
+	in.known = map[*Term]bool{}
+	in.concKnown = map[*Term]uint64{}
+	in.substGen = -1
+	in.substMemo = nil
 	in.setModel(item.model)
 	in.nondet = nil
 	in.observed = nil
@@ -411,17 +418,27 @@ func main() {
 		conccap := fs.Int("conccap", 0, "")
 		seed := fs.Int64("seed", 1, "")
 		verbose := fs.Bool("v", false, "")
+		raw := fs.Bool("raw", false, "no term rewriting: all VCs go to the solver")
 		fs.Parse(os.Args[2:])
 		p, err := loadProgram(strings.Split(*files, ","))
 		if err != nil {
 			fmt.Fprintln(os.Stderr, err)
 			os.Exit(3)
 		}
-		spec := RunSpec{Harness: *harness, Files: strings.Split(*files, ","), Preempt: *preempt, Race: *race, MaxPaths: *maxpaths, TimeoutS: *timeout, ConcCap: *conccap}
+		spec := RunSpec{Harness: *harness, Files: strings.Split(*files, ","), Preempt: *preempt, Race: *race, MaxPaths: *maxpaths, TimeoutS: *timeout, ConcCap: *conccap, Raw: *raw}
 		if *args != "" {
 			spec.Args = strings.Split(*args, ",")
 		}
+		qprofOn = os.Getenv("VX_QPROF") != ""
+		if pf := os.Getenv("VX_CPUPROF"); pf != "" {
+			f, _ := os.Create(pf)
+			pprof.StartCPUProfile(f)
+			defer pprof.StopCPUProfile()
+		}
 		res := runHarness(p, spec, *solver, *workers, *seed)
+		if qprofOn {
+			qprofDump()
+		}
 		if *verbose {
 			b, _ := json.MarshalIndent(res, "", " ")
 			fmt.Println(string(b))
